@@ -8,7 +8,12 @@
 //! found so far.
 
 pub struct Field { pub off: usize, pub w: u8, pub be: bool, pub what: String, pub hot: bool }
-pub struct Found { pub fmt: &'static str, pub fields: Vec<Field>, pub dict: Vec<u64> }
+/// a field whose value designates another place of the file: the structure it points to starts at `target`
+/// (a file offset); `min_cut`: the lowest file offset that the same mapping (section, base) still covers
+pub struct Ptr { pub off: usize, pub w: u8, pub be: bool, pub target: usize, pub min_cut: usize, pub what: String }
+/// a field that holds the size of a structure starting at `start`
+pub struct Sized { pub off: usize, pub w: u8, pub be: bool, pub start: usize }
+pub struct Found { pub fmt: &'static str, pub fields: Vec<Field>, pub dict: Vec<u64>, pub ptrs: Vec<Ptr>, pub sized: Vec<Sized> }
 
 pub fn rd(d: &[u8], off: usize, w: usize, be: bool) -> Option<u64> {
     let s = d.get(off..off.checked_add(w)?)?;
@@ -20,9 +25,9 @@ pub fn wr(d: &mut [u8], off: usize, w: usize, be: bool, val: u64) {
     for i in 0..w { let b = (val >> (8 * i)) as u8; if be { d[off + w - 1 - i] = b } else { d[off + i] = b } }
 }
 
-struct B<'a> { d: &'a [u8], f: Vec<Field>, dict: Vec<u64>, be: bool }
+struct B<'a> { d: &'a [u8], f: Vec<Field>, dict: Vec<u64>, be: bool, ptrs: Vec<Ptr>, sized: Vec<Sized> }
 impl<'a> B<'a> {
-    fn new(d: &'a [u8]) -> Self { B { d, f: vec![], dict: vec![], be: false } }
+    fn new(d: &'a [u8]) -> Self { B { d, f: vec![], dict: vec![], be: false, ptrs: vec![], sized: vec![] } }
     fn r(&self, off: usize, w: usize) -> Option<u64> { rd(self.d, off, w, self.be) }
     fn r16(&self, off: usize) -> Option<usize> { self.r(off, 2).map(|v| v as usize) }
     fn r32(&self, off: usize) -> Option<usize> { self.r(off, 4).map(|v| v as usize) }
@@ -41,6 +46,20 @@ impl<'a> B<'a> {
     fn hspan(&mut self, start: usize, len: usize, w: usize, what: &str) {
         let mut o = start;
         while o + w <= start.saturating_add(len) { self.push(o, w, what, true); o += w; }
+    }
+    /// the field at `off` points to the file offset `target`
+    fn ptr(&mut self, off: usize, w: usize, target: usize, min_cut: usize, what: &str) {
+        if off.checked_add(w).map_or(false, |e| e <= self.d.len()) && target > 0 && target < self.d.len() && self.ptrs.len() < 400 && !self.ptrs.iter().any(|p| p.off == off) {
+            self.hot(off, w, what);
+            self.ptrs.push(Ptr { off, w: w as u8, be: self.be && w > 1, target, min_cut, what: what.to_string() });
+        }
+    }
+    /// the field at `off` is the size of the structure that starts at `start`
+    fn size_of(&mut self, off: usize, w: usize, start: usize, what: &str) {
+        if off.checked_add(w).map_or(false, |e| e <= self.d.len()) && start < self.d.len() && self.sized.len() < 400 {
+            self.hot(off, w, what);
+            self.sized.push(Sized { off, w: w as u8, be: self.be && w > 1, start });
+        }
     }
     fn count(&mut self, v: usize) { let v = v as u64; if v > 0 && !self.dict.contains(&v) && self.dict.len() < 10 { self.dict.push(v); } }
 }
@@ -64,7 +83,30 @@ pub fn find(d: &[u8]) -> Found {
         else if d.starts_with(&[0xd0, 0xcf, 0x11, 0xe0]) { ole(&mut b); "ole" }
         else if d.starts_with(b"PK") { zip(&mut b); "zip" }
         else { "other" };
-    Found { fmt, fields: b.f, dict: b.dict }
+    tags(&mut b);
+    Found { fmt, fields: b.f, dict: b.dict, ptrs: b.ptrs, sized: b.sized }
+}
+
+/// magic tags that parsers SEARCH for (or recognise wherever a pointer leads): found by search here too
+fn tags(b: &mut B) {
+    let list: [(&[u8], &str); 16] = [(b"Rich", "tag.Rich"), (b"PE\0\0", "tag.PE"), (b"PK\x05\x06", "tag.zip.eocd"), (b"PK\x01\x02", "tag.zip.central"), (b"PK\x03\x04", "tag.zip.local"),
+        (b"PK\x06\x06", "tag.zip64.eocd"), (b"PK\x06\x07", "tag.zip64.locator"), (b"BSJB", "tag.dotnet.metadata"), (b"R\0o\0o\0t\0 \0E\0n\0t\0r\0y\0", "tag.ole.root_entry"),
+        (&[0xfa, 0xde, 0x0c, 0xc0], "tag.codesign.superblob"), (&[0xfa, 0xde, 0x0c, 0x02], "tag.codesign.directory"), (&[0xfa, 0xde, 0x71, 0x71], "tag.codesign.entitlements"),
+        (&[0xfa, 0xde, 0x0b, 0x01], "tag.codesign.signature"), (b"V\0S\0_\0V\0E\0R\0S\0I\0O\0N\0", "tag.pe.version_info"), (b"RSDS", "tag.pe.codeview"), (b"\x01\0\x02\0\0\0", "tag.ole.summary")];
+    let d = b.d;
+    let hay = &d[..d.len().min(512 << 10)];
+    // one pass: first byte -> candidate tags
+    let mut first = [false; 256];
+    for (t, _) in list.iter() { first[t[0] as usize] = true; }
+    let mut at: Vec<Vec<usize>> = vec![vec![]; list.len()];
+    for (i, c) in hay.iter().enumerate() {
+        if !first[*c as usize] { continue; }
+        for (k, (t, _)) in list.iter().enumerate() { if hay.len() - i >= t.len() && &hay[i..i + t.len()] == *t && at[k].len() < 64 { at[k].push(i); } }
+    }
+    for (k, ps) in at.into_iter().enumerate() {
+        let n = ps.len();
+        for (i, p) in ps.into_iter().enumerate() { if i < 3 || i + 3 >= n { b.push(p, list[k].0.len().min(4), list[k].1, false); } }
+    }
 }
 
 // ---------------------------------------------------------------- PE (+ .NET metadata)
@@ -72,11 +114,13 @@ fn pe(b: &mut B) {
     b.hot(0x3c, 4, "dos.e_lfanew");
     let pe = match b.r32(0x3c) { Some(x) => x, None => return };
     if b.d.get(pe..pe.saturating_add(4)) != Some(&b"PE\0\0"[..]) { return; }
+    b.ptr(0x3c, 4, pe, 0, "dos.e_lfanew");
     b.push(pe + 4, 2, "coff.machine", false); b.hot(pe + 6, 2, "coff.number_of_sections"); b.hot(pe + 12, 4, "coff.pointer_to_symbol_table");
     b.hot(pe + 16, 4, "coff.number_of_symbols"); b.hot(pe + 20, 2, "coff.size_of_optional_header"); b.push(pe + 22, 2, "coff.characteristics", false);
     let opt = pe + 24;
     let soh = b.r16(pe + 20).unwrap_or(0);
     let plus = b.r16(opt) == Some(0x20b);
+    b.size_of(pe + 20, 2, opt, "coff.size_of_optional_header");
     for o in [0usize, 40, 42, 44, 46, 48, 50, 68, 70] { b.push(opt + o, 2, "opt.u16", false); }
     b.span(opt + 4, soh.min(0xf0).saturating_sub(4), 4, "opt.u32");
     let nrva = opt + if plus { 108 } else { 92 };
@@ -93,6 +137,7 @@ fn pe(b: &mut B) {
         if s < 10 {
             for (o, n) in [(8usize, "virtual_size"), (12, "virtual_address"), (16, "size_of_raw_data"), (20, "pointer_to_raw_data"), (24, "pointer_to_relocations"), (28, "pointer_to_linenumbers")] { b.hot(h + o, 4, &format!("section.{}", n)); }
             b.hot(h + 32, 2, "section.number_of_relocations"); b.hot(h + 34, 2, "section.number_of_linenumbers");
+            if let Some(ro) = b.r32(h + 20) { b.ptr(h + 20, 4, ro, 0, "section.pointer_to_raw_data"); b.size_of(h + 16, 4, ro, "section.size_of_raw_data"); }
         }
     }
     let first_va = secs.iter().map(|s| s.0).min().unwrap_or(usize::MAX);
@@ -101,12 +146,26 @@ fn pe(b: &mut B) {
         for (va, vs, ro, rs) in &secs { let sz = (*vs).max(*rs); if rva >= *va && rva - *va < sz { return Some(ro + (rva - va)); } }
         if rva < first_va { Some(rva) } else { None }
     };
+    // (file offset, start of the raw data of the section that maps the rva)
+    let r2o_lo = |rva: usize| -> Option<(usize, usize)> {
+        if rva == 0 { return None; }
+        for (va, vs, ro, rs) in &secs { let sz = (*vs).max(*rs); if rva >= *va && rva - *va < sz { return Some((ro + (rva - va), *ro)); } }
+        if rva < first_va { Some((rva, 0)) } else { None }
+    };
+    for i in 0..ndirs {
+        let (ro, so) = (nrva + 4 + 8 * i, nrva + 8 + 8 * i);
+        if i == 4 { if let Some(off) = b.r32(ro) { b.ptr(ro, 4, off, 0, "datadir[4].rva"); b.size_of(so, 4, off, "datadir[4].size"); b.size_of(off, 4, off, "certificate.length"); } continue; }
+        if let Some((t, lo)) = b.r32(ro).and_then(r2o_lo) { b.ptr(ro, 4, t, lo, &format!("datadir[{}].rva", i)); b.size_of(so, 4, t, &format!("datadir[{}].size", i)); }
+    }
     let dir = |b: &B, i: usize| -> Option<(usize, usize)> { if i >= ndirs { return None; } Some((b.r32(nrva + 4 + 8 * i)?, b.r32(nrva + 8 + 8 * i)?)) };
     // exports: directory, address table, name pointer table, name ORDINAL table (indexes the address table)
     if let Some(ex) = dir(b, 0).and_then(|(rva, _)| r2o(rva)) {
         b.hspan(ex, 40, 4, "export.directory");
         let (nf, nn) = (b.r32(ex + 20).unwrap_or(0), b.r32(ex + 24).unwrap_or(0));
         b.count(nf); b.count(nn);
+        for (o, n) in [(12usize, "export.name"), (28, "export.address_of_functions"), (32, "export.address_of_names"), (36, "export.address_of_name_ordinals")] {
+            if let Some((t, lo)) = b.r32(ex + o).and_then(r2o_lo) { b.ptr(ex + o, 4, t, lo, n); }
+        }
         if let Some(t) = b.r32(ex + 28).and_then(r2o) { for i in picks(nf.min(1 << 20), 3) { b.hot(t + 4 * i, 4, "export.address_table[i]"); } }
         if let Some(t) = b.r32(ex + 32).and_then(r2o) { for i in picks(nn.min(1 << 20), 3) { b.hot(t + 4 * i, 4, "export.name_pointer_table[i]"); } }
         if let Some(t) = b.r32(ex + 36).and_then(r2o) { for i in picks(nn.min(1 << 20), 4) { b.hot(t + 2 * i, 2, "export.name_ordinal_table[i]"); } }
@@ -130,7 +189,9 @@ fn pe(b: &mut B) {
                 let e = t + 16 + 8 * i;
                 b.hot(e, 4, "resource.entry.name_or_id"); b.hot(e + 4, 4, "resource.entry.offset");
                 if let Some(o) = b.r32(e + 4) {
-                    if o & 0x8000_0000 != 0 { if dirs.len() < 3 { dirs.push(rs + (o & 0x7fff_ffff)); } } else { b.hspan(rs + o, 16, 4, "resource.data_entry"); }
+                    b.ptr(e + 4, 4, rs + (o & 0x7fff_ffff), rs, "resource.entry.offset");
+                    if o & 0x8000_0000 != 0 { if dirs.len() < 3 { dirs.push(rs + (o & 0x7fff_ffff)); } }
+                    else { b.hspan(rs + o, 16, 4, "resource.data_entry"); if let Some((t, lo)) = b.r32(rs + o).and_then(r2o_lo) { b.ptr(rs + o, 4, t, lo, "resource.data_entry.rva"); b.size_of(rs + o + 4, 4, t, "resource.data_entry.size"); } }
                 }
                 if let Some(nm) = b.r32(e) { if nm & 0x8000_0000 != 0 { b.hot(rs + (nm & 0x7fff_ffff), 2, "resource.name.length"); } }
             }
@@ -147,7 +208,9 @@ fn pe(b: &mut B) {
     if let Some(cli) = dir(b, 14).and_then(|(rva, _)| r2o(rva)) {
         b.hot(cli, 4, "cli.cb"); b.push(cli + 4, 2, "cli.major", false); b.push(cli + 6, 2, "cli.minor", false);
         b.hspan(cli + 8, 64, 4, "cli.header");
+        if let Some((t, lo)) = b.r32(cli + 8).and_then(r2o_lo) { b.ptr(cli + 8, 4, t, lo, "cli.metadata.rva"); b.size_of(cli + 12, 4, t, "cli.metadata.size"); }
         if let Some(md) = b.r32(cli + 8).and_then(r2o) {
+            b.size_of(md + 12, 4, md + 16, "metadata.version_length");
             b.push(md, 4, "metadata.signature", false); b.hot(md + 12, 4, "metadata.version_length");
             let vl = b.r32(md + 12).unwrap_or(0).min(256);
             b.push(md + 16 + vl, 2, "metadata.flags", false); b.hot(md + 18 + vl, 2, "metadata.number_of_streams");
@@ -156,6 +219,7 @@ fn pe(b: &mut B) {
             for _ in 0..ns {
                 b.hot(p, 4, "stream.offset"); b.hot(p + 4, 4, "stream.size");
                 let (so, ss) = (b.r32(p).unwrap_or(0), b.r32(p + 4).unwrap_or(0));
+                b.ptr(p, 4, md + so, md, "stream.offset"); b.size_of(p + 4, 4, md + so, "stream.size");
                 let mut q = p + 8; let mut name = vec![];
                 while let Some(c) = b.d.get(q) { q += 1; if *c == 0 { break; } name.push(*c); if name.len() > 32 { break; } }
                 p = (q + 3) & !3;
@@ -195,6 +259,7 @@ fn elf(b: &mut B) {
     let (phoff, shoff) = (cl(b.r(0x18 + a, a).unwrap_or(0)), cl(b.r(0x18 + 2 * a, a).unwrap_or(0)));
     let (phnum, shnum, shstr) = (b.r16(t + 8).unwrap_or(0), b.r16(t + 12).unwrap_or(0), b.r16(t + 14).unwrap_or(0));
     b.count(phnum); b.count(shnum);
+    b.ptr(0x18 + a, a, phoff, 0, "ehdr.e_phoff"); b.ptr(0x18 + 2 * a, a, shoff, 0, "ehdr.e_shoff");
     let (phsz, shsz) = if is64 { (56, 64) } else { (32, 40) };
     // program headers: the first ones, PT_DYNAMIC, PT_NOTE
     let mut want: Vec<usize> = (0..phnum.min(3)).collect();
@@ -204,6 +269,7 @@ fn elf(b: &mut B) {
         if is64 { b.hot(h, 4, "phdr.p_type"); b.push(h + 4, 4, "phdr.p_flags", false); for (k, n) in ["p_offset", "p_vaddr", "p_paddr", "p_filesz", "p_memsz", "p_align"].iter().enumerate() { b.hot(h + 8 + 8 * k, 8, &format!("phdr.{}", n)); } }
         else { for (k, n) in ["p_type", "p_offset", "p_vaddr", "p_paddr", "p_filesz", "p_memsz", "p_flags", "p_align"].iter().enumerate() { b.hot(h + 4 * k, 4, &format!("phdr.{}", n)); } }
         let (ty, off) = (b.r(h, 4).unwrap_or(0), cl(b.r(h + if is64 { 8 } else { 4 }, a).unwrap_or(0)));
+        b.ptr(h + if is64 { 8 } else { 4 }, a, off, 0, "phdr.p_offset"); b.size_of(h + if is64 { 32 } else { 16 }, a, off, "phdr.p_filesz");
         if ty == 2 { for k in 0..6 { b.hot(off + 2 * a * k, a, "dynamic.d_tag"); b.hot(off + 2 * a * k + a, a, "dynamic.d_val"); } }
         if ty == 4 { b.hspan(off, 12, 4, "note.header"); }
     }
@@ -218,6 +284,7 @@ fn elf(b: &mut B) {
         b.push(h + 8, a, "shdr.sh_flags", false); b.hot(h + 8 + a, a, "shdr.sh_addr"); b.hot(h + off_o, a, "shdr.sh_offset"); b.hot(h + size_o, a, "shdr.sh_size");
         b.hot(h + link_o, 4, "shdr.sh_link"); b.hot(h + link_o + 4, 4, "shdr.sh_info"); b.hot(h + link_o + 8, a, "shdr.sh_addralign"); b.hot(h + ent_o, a, "shdr.sh_entsize");
         let (ty, off, size) = (b.r(h + 4, 4).unwrap_or(0), cl(b.r(h + off_o, a).unwrap_or(0)), cl(b.r(h + size_o, a).unwrap_or(0)));
+        if ty != 8 { b.ptr(h + off_o, a, off, 0, "shdr.sh_offset"); b.size_of(h + size_o, a, off, "shdr.sh_size"); }
         if ty == 2 || ty == 11 {
             let es = if is64 { 24 } else { 16 }; let n = size / es; b.count(n);
             for k in picks(n.min(1 << 20), 3) {
@@ -241,7 +308,7 @@ fn macho_fat(b: &mut B) {
     b.hot(4, 4, "fat.nfat_arch");
     let n = b.r32(4).unwrap_or(0).min(4);
     let mut offs = vec![];
-    for i in 0..n { b.hspan(8 + 20 * i, 20, 4, "fat.arch"); if let Some(o) = b.r32(8 + 20 * i + 8) { offs.push(o); } }
+    for i in 0..n { b.hspan(8 + 20 * i, 20, 4, "fat.arch"); if let Some(o) = b.r32(8 + 20 * i + 8) { offs.push(o); b.ptr(8 + 20 * i + 8, 4, o, 0, "fat.arch.offset"); b.size_of(8 + 20 * i + 12, 4, o, "fat.arch.size"); } }
     b.be = false;
     for o in offs.into_iter().take(2) { macho_thin(b, o); }
 }
@@ -257,30 +324,35 @@ fn macho_thin(b: &mut B, base: usize) {
     let ncmds = b.r32(base + 16).unwrap_or(0).min(96);
     b.count(ncmds);
     let mut lc = base + if is64 { 32 } else { 28 };
+    b.size_of(base + 20, 4, lc, "header.sizeofcmds");
     for _ in 0..ncmds {
         let (cmd, size) = match (b.r32(lc), b.r32(lc + 4)) { (Some(c), Some(s)) => (c, s), _ => break };
-        b.hot(lc, 4, "lc.cmd"); b.hot(lc + 4, 4, "lc.cmdsize");
+        b.hot(lc, 4, "lc.cmd"); b.size_of(lc + 4, 4, lc, "lc.cmdsize");
         b.hspan(lc + 8, size.min(80).saturating_sub(8), 4, &format!("lc[{:#x}].u32", cmd));
         let lo = |b: &B, o: usize| b.r32(lc + o).map(|x| base + x);
+        if matches!(cmd, 0x8000_0033 | 0x8000_0034 | 0x1d | 0x26 | 0x29 | 0x2b | 0x2e | 0x1e) { if let Some(p) = lo(b, 8) { b.ptr(lc + 8, 4, p, base, "linkedit_data.dataoff"); b.size_of(lc + 12, 4, p, "linkedit_data.datasize"); } }
         match cmd {
             0x2 => { // LC_SYMTAB
                 let es = if is64 { 16 } else { 12 };
                 let n = b.r32(lc + 12).unwrap_or(0); b.count(n); b.count(b.r32(lc + 20).unwrap_or(0));
+                if let Some(so) = lo(b, 8) { b.ptr(lc + 8, 4, so, base, "symtab.symoff"); }
+                if let Some(st) = lo(b, 16) { b.ptr(lc + 16, 4, st, base, "symtab.stroff"); b.size_of(lc + 20, 4, st, "symtab.strsize"); }
                 if let Some(so) = lo(b, 8) { for k in picks(n.min(1 << 20), 3) { let s = so + es * k; b.hot(s, 4, "nlist.n_strx"); b.push(s + 4, 1, "nlist.n_type", false); b.hot(s + 5, 1, "nlist.n_sect"); b.hot(s + 6, 2, "nlist.n_desc"); } }
             }
-            0xb => { if let Some(io) = lo(b, 56) { for k in 0..3 { b.hot(io + 4 * k, 4, "dysymtab.indirect_symbol[i]"); } } }
+            0xb => { if let Some(io) = lo(b, 56) { b.ptr(lc + 56, 4, io, base, "dysymtab.indirectsymoff"); for k in 0..3 { b.hot(io + 4 * k, 4, "dysymtab.indirect_symbol[i]"); } } }
             0x19 | 0x1 => {
                 let (ns_o, s0, ssz) = if cmd == 0x19 { (64, 72, 80) } else { (48, 56, 68) };
                 let ns = b.r32(lc + ns_o).unwrap_or(0); b.count(ns);
                 for k in picks(ns.min(255), 2) { let s = lc + s0 + ssz * k; b.hspan(s + 32, ssz - 32, 4, "section.u32"); }
             }
             0x22 | 0x8000_0022 => {
-                for (o, n) in [(8usize, "rebase"), (16, "bind"), (24, "weak_bind"), (32, "lazy_bind"), (40, "export")] { if let Some(p) = lo(b, o) { if p != base { b.hspan(p, if n == "export" { 24 } else { 8 }, 1, &format!("dyld_info.{}", n)); } } }
+                for (o, n) in [(8usize, "rebase"), (16, "bind"), (24, "weak_bind"), (32, "lazy_bind"), (40, "export")] { if let Some(p) = lo(b, o) { if p != base { b.ptr(lc + o, 4, p, base, &format!("dyld_info.{}_off", n)); b.size_of(lc + o + 4, 4, p, &format!("dyld_info.{}_size", n)); b.hspan(p, if n == "export" { 24 } else { 8 }, 1, &format!("dyld_info.{}", n)); } } }
             }
             0x8000_0033 => { if let Some(p) = lo(b, 8) { b.hspan(p, 24, 1, "exports_trie"); } }
             0x8000_0034 => {
                 if let Some(p) = lo(b, 8) {
                     b.hspan(p, 28, 4, "chained_fixups.header");
+                    for (o, n) in [(4usize, "chained_fixups.starts_offset"), (8, "chained_fixups.imports_offset"), (12, "chained_fixups.symbols_offset")] { if let Some(v) = b.r32(p + o) { b.ptr(p + o, 4, p + v, p, n); } }
                     if let Some(io) = b.r32(p + 8) { for k in 0..3 { b.hot(p + io + 4 * k, 4, "chained_fixups.import[i]"); } }
                     if let Some(so) = b.r32(p + 4) { b.hspan(p + so, 16, 4, "chained_fixups.starts_in_image"); }
                     b.count(b.r32(p + 16).unwrap_or(0));
@@ -289,11 +361,11 @@ fn macho_thin(b: &mut B, base: usize) {
             0x1d => { // LC_CODE_SIGNATURE: big-endian blobs
                 if let Some(p) = lo(b, 8) {
                     b.be = true;
-                    b.hspan(p, 12, 4, "codesign.superblob");
+                    b.hspan(p, 12, 4, "codesign.superblob"); b.size_of(p + 4, 4, p, "codesign.superblob.length");
                     let n = b.r32(p + 8).unwrap_or(0).min(6); b.count(n);
                     for k in 0..n {
                         b.hspan(p + 12 + 8 * k, 8, 4, "codesign.index");
-                        if let Some(bo) = b.r32(p + 12 + 8 * k + 4) { b.hspan(p + bo, 8, 4, "codesign.blob.header"); b.hspan(p + bo + 8, 40, 4, "codesign.blob.body"); }
+                        if let Some(bo) = b.r32(p + 12 + 8 * k + 4) { b.ptr(p + 12 + 8 * k + 4, 4, p + bo, p, "codesign.index.offset"); b.size_of(p + bo + 4, 4, p + bo, "codesign.blob.length"); b.hspan(p + bo, 8, 4, "codesign.blob.header"); b.hspan(p + bo + 8, 40, 4, "codesign.blob.body"); }
                     }
                     b.be = thin_be;
                 }
@@ -309,15 +381,15 @@ fn macho_thin(b: &mut B, base: usize) {
 
 // ---------------------------------------------------------------- LNK
 fn lnk(b: &mut B) {
-    b.hot(0, 4, "header.size"); b.hot(0x14, 4, "header.link_flags"); b.push(0x18, 4, "header.file_attributes", false);
+    b.size_of(0, 4, 0, "header.size"); b.hot(0x14, 4, "header.link_flags"); b.push(0x18, 4, "header.file_attributes", false);
     b.hot(0x34, 4, "header.file_size"); b.push(0x38, 4, "header.icon_index", false); b.push(0x3c, 4, "header.show_command", false); b.push(0x40, 2, "header.hotkey", false);
     let flags = b.r32(0x14).unwrap_or(0);
     let mut p = 0x4c;
     if flags & 1 != 0 {
-        b.hot(p, 2, "idlist.size");
+        b.size_of(p, 2, p + 2, "idlist.size");
         let sz = b.r16(p).unwrap_or(0); let end = p + 2 + sz; let mut q = p + 2; let mut i = 0;
         while q + 2 <= end && i < 32 {
-            b.hot(q, 2, "idlist.item_size");
+            b.size_of(q, 2, q, "idlist.item_size");
             let isz = b.r16(q).unwrap_or(0);
             if isz == 0 { break; }
             if i < 6 { b.push(q + 2, 1, "idlist.item_type", false); b.span(q + 3, isz.min(12).saturating_sub(3), 1, "idlist.item_data"); }
@@ -327,10 +399,11 @@ fn lnk(b: &mut B) {
     }
     if flags & 2 != 0 {
         let li = p;
-        b.hspan(li, 28, 4, "linkinfo.header");
+        b.hspan(li, 28, 4, "linkinfo.header"); b.size_of(li, 4, li, "linkinfo.size"); b.size_of(li + 4, 4, li, "linkinfo.header_size");
+        for o in [12usize, 16, 20, 24] { if let Some(v) = b.r32(li + o) { if v != 0 { b.ptr(li + o, 4, li + v, li, "linkinfo.offset"); } } }
         let hs = b.r32(li + 4).unwrap_or(0);
         if hs >= 0x24 { b.hspan(li + 28, 8, 4, "linkinfo.unicode_offsets"); }
-        if let Some(v) = b.r32(li + 12) { if v != 0 { b.hspan(li + v, 16, 4, "linkinfo.volume_id"); } }
+        if let Some(v) = b.r32(li + 12) { if v != 0 { b.hspan(li + v, 16, 4, "linkinfo.volume_id"); b.size_of(li + v, 4, li + v, "linkinfo.volume_id.size"); } }
         if let Some(v) = b.r32(li + 20) { if v != 0 { b.hspan(li + v, 20, 4, "linkinfo.common_network_relative_link"); } }
         p = li + b.r32(li).unwrap_or(0);
     }
@@ -340,7 +413,7 @@ fn lnk(b: &mut B) {
     }
     for _ in 0..16 {
         let bs = match b.r32(p) { Some(x) => x, None => break };
-        b.hot(p, 4, "extradata.block_size");
+        b.size_of(p, 4, p, "extradata.block_size");
         if bs < 4 { break; }
         b.hot(p + 4, 4, "extradata.block_signature");
         b.hspan(p + 8, bs.min(40).saturating_sub(8), 4, "extradata.block_body.u32"); b.span(p + 8, bs.min(24).saturating_sub(8), 2, "extradata.block_body.u16");
@@ -350,19 +423,22 @@ fn lnk(b: &mut B) {
 
 // ---------------------------------------------------------------- DEX
 fn dex(b: &mut B) {
-    b.hspan(0x20, 0x50, 4, "header");
+    b.hspan(0x20, 0x50, 4, "header"); b.size_of(0x20, 4, 0, "header.file_size"); b.size_of(0x24, 4, 0, "header.header_size");
+    if let (Some(ds), Some(doff)) = (b.r32(0x68), b.r32(0x6c)) { let _ = ds; b.ptr(0x6c, 4, doff, 0, "header.data_off"); b.size_of(0x68, 4, doff, "header.data_size"); }
     let tabs: [(&str, usize, usize, &[usize]); 6] = [("string_ids", 0x38, 4, &[4]), ("type_ids", 0x40, 4, &[4]), ("proto_ids", 0x48, 12, &[4, 4, 4]), ("field_ids", 0x50, 8, &[2, 2, 4]), ("method_ids", 0x58, 8, &[2, 2, 4]), ("class_defs", 0x60, 32, &[4, 4, 4, 4, 4, 4, 4, 4])];
     for (name, h, es, ws) in tabs {
         let (n, off) = (b.r32(h).unwrap_or(0), b.r32(h + 4).unwrap_or(0));
         b.count(n);
+        b.ptr(h + 4, 4, off, 0, &format!("header.{}_off", name));
         for i in picks(n.min(1 << 20), 2) {
             let mut o = off + es * i;
             for w in ws { b.hot(o, *w, &format!("{}[i]", name)); o += w; }
-            if name == "string_ids" { if let Some(s) = b.r32(off + 4 * i) { b.hot(s, 1, "string_data.utf16_size(uleb)"); b.push(s + 1, 1, "string_data.byte", false); } }
+            if name == "string_ids" { if let Some(s) = b.r32(off + 4 * i) { b.ptr(off + 4 * i, 4, s, 0, "string_ids[i]"); b.hot(s, 1, "string_data.utf16_size(uleb)"); b.push(s + 1, 1, "string_data.byte", false); } }
             if name == "class_defs" { if let Some(cd) = b.r32(off + es * i + 24) { if cd != 0 { b.hspan(cd, 8, 1, "class_data(uleb)"); } } }
         }
     }
     if let Some(m) = b.r32(0x34) {
+        b.ptr(0x34, 4, m, 0, "header.map_off");
         b.hot(m, 4, "map_list.size");
         for i in 0..b.r32(m).unwrap_or(0).min(8) { let e = m + 4 + 12 * i; b.hot(e, 2, "map_item.type"); b.hot(e + 4, 4, "map_item.size"); b.hot(e + 8, 4, "map_item.offset"); }
     }
@@ -371,6 +447,7 @@ fn dex(b: &mut B) {
 // ---------------------------------------------------------------- CRX
 fn crx(b: &mut B) {
     b.hspan(4, 12, 4, "header");
+    if b.r32(4) == Some(3) { b.size_of(8, 4, 12, "header.header_size"); } else { b.size_of(8, 4, 16, "header.public_key_length"); if let Some(k) = b.r32(8) { b.size_of(12, 4, 16 + k, "header.signature_length"); } }
     b.hspan(16, 48, 1, "header.protobuf_or_key");
 }
 
@@ -387,11 +464,16 @@ fn zip(b: &mut B) {
     let mut cd = match b.r32(eocd + 16) { Some(x) => x, None => return };
     if d.get(cd..cd.saturating_add(4)) != Some(&b"PK\x01\x02"[..]) { cd = eocd.saturating_sub(cd_size); }
     let delta = cd.saturating_sub(b.r32(eocd + 16).unwrap_or(0));
+    b.ptr(eocd + 16, 4, cd, delta, "eocd.central_directory_offset"); b.size_of(eocd + 12, 4, cd, "eocd.central_directory_size"); b.size_of(eocd + 20, 2, eocd + 22, "eocd.comment_length");
     for _ in 0..4 {
         if d.get(cd..cd.saturating_add(4)) != Some(&b"PK\x01\x02"[..]) { break; }
         for o in [4usize, 6, 8, 10, 12, 14, 28, 30, 32, 34, 36] { b.hot(cd + o, 2, "central.u16"); }
         for o in [16usize, 20, 24, 38, 42] { b.hot(cd + o, 4, "central.u32"); }
+        let (fnl, exl) = (b.r16(cd + 28).unwrap_or(0), b.r16(cd + 30).unwrap_or(0));
+        b.size_of(cd + 28, 2, cd + 46, "central.file_name_length"); b.size_of(cd + 30, 2, cd + 46 + fnl, "central.extra_length"); b.size_of(cd + 32, 2, cd + 46 + fnl + exl, "central.comment_length");
         if let Some(l) = b.r32(cd + 42).map(|x| x + delta) {
+            b.ptr(cd + 42, 4, l, delta, "central.local_header_offset");
+            if let (Some(lf), Some(le)) = (b.r16(l + 26), b.r16(l + 28)) { b.size_of(l + 26, 2, l + 30, "local.file_name_length"); b.size_of(l + 28, 2, l + 30 + lf, "local.extra_length"); b.size_of(l + 18, 4, l + 30 + lf + le, "local.compressed_size"); }
             if d.get(l..l.saturating_add(4)) == Some(&b"PK\x03\x04"[..]) { for o in [4usize, 6, 8, 10, 12, 26, 28] { b.hot(l + o, 2, "local.u16"); } for o in [14usize, 18, 22] { b.hot(l + o, 4, "local.u32"); } }
         }
         let ex = cd + 46 + b.r16(cd + 28).unwrap_or(0);
@@ -427,7 +509,7 @@ fn ole(b: &mut B) {
     }
     let mut root_start = None;
     for (i, e) in entries.iter().enumerate().take(24) {
-        b.hot(e + 0x40, 2, "dirent.name_length"); b.hot(e + 0x42, 1, "dirent.type"); b.push(e + 0x43, 1, "dirent.color", false);
+        b.size_of(e + 0x40, 2, *e, "dirent.name_length"); b.hot(e + 0x42, 1, "dirent.type"); b.push(e + 0x43, 1, "dirent.color", false);
         b.hot(e + 0x44, 4, "dirent.left"); b.hot(e + 0x48, 4, "dirent.right"); b.hot(e + 0x4c, 4, "dirent.child");
         b.hot(e + 0x74, 4, "dirent.start_sector"); b.hot(e + 0x78, 4, "dirent.size"); b.hot(e + 0x7c, 4, "dirent.size_high");
         let (ty, start, size) = (b.r(e + 0x42, 1).unwrap_or(0), b.r32(e + 0x74).unwrap_or(0), b.r32(e + 0x78).unwrap_or(0));
